@@ -77,6 +77,9 @@ Theorem C20_shared_state_inventory :
   class_level_containers = [] /\ mutable_defaults = [] /\ caching_decorators = [] /\
   globals_written = ["protocol._modbus_tcp_tx"%string] /\
   suspicious_mutations = ["Inverter.set_keep_alive: self._protocol.keep_alive = .."%string; "ProtocolCommand.execute: protocol._retry = .."%string] /\
+  (* no object created at class-definition / import time (the ES read commands, the discovery command) is an instance of a class whose methods
+     assign its own attributes: per-object state lives in objects created per inverter object *)
+  forallb (fun x => negb (existsb (String.eqb (snd x)) stateful_object_classes_closure)) shared_instances = true /\
   self_mutating_definition_classes = ["EcoModeV1"; "EcoModeV2"; "PeakShavingMode"; "Schedule"]%string /\
   mutable_rows =
     rows_of "ET" [ET_all_sensors; ET_all_sensors_battery; ET_all_sensors_battery2; ET_all_sensors_meter; ET_all_sensors_mppt; ET_all_settings; ET_settings_arm_fw_19; ET_settings_arm_fw_22] ++
